@@ -7,6 +7,7 @@ def check(rep):
     ctx = Ctx(rep)
     # first the rules that read the sources directly (they do not need the lexer / parser models)
     ER.rule_sly_runtime_instance_only(ctx)
+    ER.rule_no_module_iterators(ctx)
     ER.rule_no_process_globals(ctx)
     ER.rule_fresh_per_parse(ctx)
     ER.rule_no_shared_state(ctx)
